@@ -130,10 +130,16 @@ let rec eval (toks : string list) : dvalue * string list =
     end
 
 let b01 b = if b then "1" else "0"
+(* results are rendered from the limbs with zarith (sign flag, then the decimal magnitude — what Display prints); the model's
+   own radix conversion is quadratic in the extracted arithmetic and is exercised by the disp / tsb / ndisp / nfs operations *)
+let fast_big (a : big) : string = (if a.bpos then "" else "-") ^ ZZ.to_string (zz_of_n (lval a.limbs))
+let fast_num (x : num) : string =
+  if is_nan x then utf8_of_cps nAN_TEXT
+  else if beq x.down bone then fast_big x.up else fast_big x.up ^ "/" ^ fast_big x.down
 let render (v : dvalue) : string =
   match v with
-  | VBig a -> Printf.sprintf "B:%s:%s:%s" (utf8_of_cps (big_display a)) (b01 a.bpos) (b01 (is_zero a))
-  | VNum a -> Printf.sprintf "N:%s:%s:%s" (utf8_of_cps (num_display a)) (b01 (is_pos a)) (b01 (is_nan a))
+  | VBig a -> Printf.sprintf "B:%s:%s:%s" (fast_big a) (b01 a.bpos) (b01 (is_zero a))
+  | VNum a -> Printf.sprintf "N:%s:%s:%s" (fast_num a) (b01 (is_pos a)) (b01 (is_nan a))
   | VBool b -> "b:" ^ b01 b
   | VCmp None -> "c:None" | VCmp (Some Lt) -> "c:Lt" | VCmp (Some Eq) -> "c:Eq" | VCmp (Some Gt) -> "c:Gt"
   | VStr s -> "s:" ^ utf8_of_cps s
